@@ -1041,6 +1041,32 @@ func all() []opLit {
 			return sb.String()
 		}},
 
+		// a camera-sized frame (one megapixel: 128 x 128 blocks of the local binariser): what readers
+		// are given in practice, and the size class where implementations start to pool buffers
+		{"lum-megapixel-frame", func() string {
+			const w, h = 1024, 1024
+			yuv := make([]byte, w*h)
+			x := uint32(12345)
+			for i := range yuv {
+				x = x*1664525 + 1013904223
+				v := byte(x >> 24)
+				if (i/w/16+i%w/16)%2 == 0 {
+					v = v/4 + 16 // dark tile with noise
+				} else {
+					v = 255 - v/4 // light tile with noise
+				}
+				yuv[i] = v
+			}
+			src, e := gozxing.NewPlanarYUVLuminanceSource(yuv, w, h, 0, 0, w, h, false)
+			if e != nil {
+				return errKind(e)
+			}
+			bm, e := gozxing.NewHybridBinarizer(src).GetBlackMatrix()
+			if e != nil {
+				return errKind(e)
+			}
+			return hashM(bm)
+		}},
 		{"rs-qr", func() string { return rsRoundTrip(reedsolomon.GenericGF_QR_CODE_FIELD_256, 19, 7, 256) }},
 		{"rs-dm", func() string { return rsRoundTrip(reedsolomon.GenericGF_DATA_MATRIX_FIELD_256, 44, 28, 256) }},
 		{"rs-aztec12", func() string { return rsRoundTrip(reedsolomon.GenericGF_AZTEC_DATA_12, 60, 30, 4096) }},
